@@ -40,17 +40,26 @@ def clean(out: str, use_urlize: bool, use_xmlattr: bool, xml_keys):
     return out
 
 
-def leaks(cleaned: str, nonces, use_tojson: bool):
-    """-> list of (char, nonce|None) for every raw metacharacter."""
-    res = []
+def leaks(cleaned: str, nonces, use_tojson: bool = False):
+    """-> (strong, n_other).  strong: list of (char, nonce) for every raw
+    metacharacter that sits between two copies of one nonce (or of its
+    reversal, for |reverse / [::-1]) -- the generators put the nonce on both
+    sides of every metacharacter of a datum, so this proves the character is
+    the datum's own.  n_other counts the remaining raw metacharacters: repr
+    quotes of pprint/list/dict output, tojson string quotes, remnants of
+    documented markup ... which are not characters of data or literals."""
+    strong = []
+    other = 0
     for m in re.finditer(r"[<>'\"]", cleaned):
         p = m.start()
-        ch = m.group()
         before = cleaned[max(0, p - 5):p]
         after = cleaned[p + 1:p + 6]
-        nb = before if before in nonces else None
-        na = after if after in nonces else None
-        if ch == '"' and use_tojson and not (nb and na):
-            continue
-        res.append((ch, nb or na))
-    return res
+        if before == after and len(before) == 5:
+            if before in nonces:
+                strong.append((m.group(), before))
+                continue
+            if before[::-1] in nonces:
+                strong.append((m.group(), before[::-1]))
+                continue
+        other += 1
+    return strong, other
